@@ -150,6 +150,29 @@ func runC14(w *World, r *Report, tier string) {
 		r.Check(okT, "O1", "xmpp.isSupportedMech#complete", w.pos(supp.Pos()), "an equal element does not make isSupportedMech return true", "equality edge reaches only return true")
 	}
 
+	// the advertised list is the one of the current stream: features are decoded into a fresh value and assigned as a whole
+	{
+		fFeat := w.Field("xmpp.Session.Features")
+		nStores := 0
+		for _, a := range w.fieldAccesses(fFeat, w.LibFuncs()) {
+			if a.Kind != "store" {
+				continue
+			}
+			nStores++
+			okSrc := w.isResultOf(a.Val, 0, "xmpp.Session.extractStreamFeatures")
+			r.Check(okSrc, "O1", w.funcKey(a.Fn)+"#store:Features", w.ipos(a.Instr), "the session's stream features are assigned from something other than a freshly decoded value", "Features = extractStreamFeatures()")
+		}
+		if nStores < 2 {
+			r.Fail("O1", "xmpp.Session.Features#assignments", "-", fmt.Sprintf("the session's stream features are assigned as a whole %d time(s); they must be replaced after the stream open and after every stream restart — decoding into the existing value makes encoding/xml append to the mechanism list, so mechanisms advertised on an earlier stream (before STARTTLS, or on a previous connection) still count as advertised", nStores))
+		}
+		for _, k := range []string{"xmpp.(*Session).extractStreamFeatures", "xmpp.(*Session).bind", "xmpp.(*Session).rfc3921Session", "xmpp.(*Session).startTlsIfSupported"} {
+			fn := w.Func(k)
+			for _, c := range w.callsIn(fn, "encoding/xml.Decoder.Decode", "encoding/xml.Decoder.DecodeElement") {
+				r.Check(freshDecodeTarget(c), "O1", k+"#decode-target", w.ipos(c), "a reply is decoded into a value that is not a fresh zero value: encoding/xml does not clear its target and appends to slices, so state of an earlier stream leaks into this one", "decodes into a fresh local")
+			}
+		}
+	}
+
 	// O2 capability table
 	switchConsts := map[string]bool{}
 	swEdges := edgesAsserting(sasl, func(cv ssa.Value, truth bool) bool {
@@ -388,4 +411,37 @@ func keys(m map[string]bool) []string {
 	}
 	sort.Strings(out)
 	return out
+}
+
+// freshDecodeTarget: the value Decode/DecodeElement fills is a local that nothing stores into.
+func freshDecodeTarget(c ssa.CallInstruction) bool {
+	args := c.Common().Args
+	if len(args) < 2 {
+		return false
+	}
+	tgt := args[1]
+	if mi, ok := tgt.(*ssa.MakeInterface); ok {
+		tgt = mi.X
+	}
+	al, ok := tgt.(*ssa.Alloc)
+	if !ok {
+		return false
+	}
+	var dirty func(v ssa.Value) bool
+	dirty = func(v ssa.Value) bool {
+		for _, r := range *v.Referrers() {
+			switch x := r.(type) {
+			case *ssa.Store:
+				if x.Addr == v {
+					return true
+				}
+			case *ssa.FieldAddr:
+				if dirty(x) {
+					return true
+				}
+			}
+		}
+		return false
+	}
+	return !dirty(al)
 }
